@@ -22,7 +22,7 @@ func init() {
 			StatesMean:  "(program, trace prefix) pairs; transitions = real Next calls compared with the model",
 			Assumptions: []string{"small-scope hypothesis", "canonical layout", "the count of a node changes when the jump is performed (after its target expression has been evaluated and found to name a node)"},
 		},
-		QuickBudget: 60 * time.Second, ThoroughBudget: 12 * time.Minute, CrashIsViolation: true,
+		QuickBudget: 180 * time.Second, ThoroughBudget: 12 * time.Minute, CrashIsViolation: true,
 		Run: runC11,
 	})
 	register(&Check{
@@ -33,7 +33,7 @@ func init() {
 			StatesMean:  "(program, trace prefix incl. calls after the end) pairs; transitions = real Next calls",
 			Assumptions: []string{"small-scope hypothesis", "canonical layout"},
 		},
-		QuickBudget: 60 * time.Second, ThoroughBudget: 12 * time.Minute, CrashIsViolation: true,
+		QuickBudget: 180 * time.Second, ThoroughBudget: 12 * time.Minute, CrashIsViolation: true,
 		Run: runC12,
 	})
 }
